@@ -47,7 +47,10 @@ GOSUB_FORMS = {
 OPTS = [dict(filter_unused_linenum=f, add_suffix=s, add_standard_prefix=False, skip_procedure_headers=True) for f in (False, True) for s in (False, True)]
 
 
-def program(form_text, targets, *, at=20, line0=False):
+HOLLOW = {"colon": " :", "colons": " : :", "bare": "", "blank": " ", "rem": " REM", "quote": " '"}  # a line without a statement is still a line
+
+
+def program(form_text, targets, *, at=20, line0=False, hollow=None):
     """the jump form sits on line `at`; a one-shot guard keeps self / backward jumps from looping"""
     guard = any(t <= at for t in targets if t is not None)
     stmt = form_text.format(*targets)
@@ -58,6 +61,9 @@ def program(form_text, targets, *, at=20, line0=False):
         lines.append('0 PRINT "L0"')
     lines.append("10 INPUT A , B")
     for n in (20, 30):
+        if hollow and n == 30 and n != at:
+            lines.append("30" + HOLLOW[hollow])
+            continue
         lines.append(f'{n} PRINT "L{n}"' + (" : " + stmt if n == at else ""))
     lines.append('40 PRINT "L40" : END')
     lines.append('90 PRINT "S" : RETURN')
@@ -80,6 +86,15 @@ def jobs_for(tier):
         for t in (90, 55):
             jobs.append((name, (t,), 20, False))
             jobs.append((name, (t,), 20, True))
+    # the target (or a line passed over) holds no statement at all: `30 :`, a bare `30`, `30 REM`
+    for name, (text, k) in FORMS.items():
+        for h in HOLLOW:
+            if tier == "quick" and h in ("colons", "blank", "quote") and name not in ("GOTO", "THEN", "ON-GOTO"):
+                continue
+            jobs.append((name, tuple([30] * k), 20, False, h))
+            if k > 1:
+                jobs.append((name, tuple([40] + [30] * (k - 1)), 20, False, h))
+            jobs.append((name, tuple([40] * k), 20, False, h))
     return jobs
 
 
@@ -111,14 +126,17 @@ def strip_labels(text):
 
 
 def check_one(job):
-    name, targets, at, line0 = job
+    name, targets, at, line0 = job[:4]
+    hollow = job[4] if len(job) > 4 else None
     st = smt.Stats()
     smt.STATS = st  # path-feasibility queries of the machines are charged to this job too
-    src = program(form_text(name), targets, at=at, line0=line0)
+    src = program(form_text(name), targets, at=at, line0=line0, hollow=hollow)
     out = {"job": job, "src": src, "sigs": [], "stats": None, "counts": {}}
     missing = 55 in targets
     all_lines = ([0] if line0 else []) + [10, 20, 30, 40, 90]
     tclass = "+".join(("self" if t == at else "missing" if t == 55 else "line0" if t == 0 else "back" if t < at else "fwd") for t in targets)
+    if hollow:
+        tclass += ":line-without-statement-" + hollow
     texts = {}
     for oi, opts in enumerate(OPTS):
         o = classify(src + "\n", plain=False, **opts)
